@@ -404,6 +404,19 @@ def shape_findings(prog: Program, ma: MonthAnalysis):
                 for t in (n_.targets if isinstance(n_, ast.Assign) else [n_.target]):
                     if attr_chain(t) in ("self.load", "self.hour"):
                         out.append((f"{f_.qualname}:{norm_stmt(n_)}", prog.loc(f_, n_), f_.qualname, "self.load / self.hour is written outside process_month_loads"))
+    # the calendar helpers the breakpoints come from are functions of their arguments: no stored answer under a key that cannot
+    # tell two calls apart (month ends cached per (month, number of years) are handed to a load year of another length)
+    from ..memo import memo_bypass
+
+    for hn in ("first_month_hour", "last_month_hour", "monthdays"):
+        hq = f"{fi.module}.{hn}"
+        if prog.has_func(hq):
+            hf = prog.func(hq)
+            for r_, store_, key_, missing_ in memo_bypass(prog, hf):
+                if missing_:
+                    out.append((f"{hq}:memo:{store_}:{missing_}", prog.loc(hf, r_), hq,
+                                f"{hn}() returns the stored {store_}[{key_[:50]}], and the key does not carry {missing_}: breakpoints computed for another calendar year are reused, "
+                                "while the month's duration is computed afresh - the month's energy integral and the time axis no longer match the loads"))
     # the month loop runs over exactly the requested months: range(start_month, end_month + 1), however the bounds are written
     it = ma.loop.iter
     ok_iter = False
